@@ -401,6 +401,7 @@ namespace sim
         const std::uint32_t sfsel   = r.below (4);
         const unsigned valmod = (jb.prop == P16 || vsel == 0) ? 4 : 120;
         configure (e, valmod, sfsel != 0);
+        e.cfg.size_cap = ((seed >> 20) % 8u == 0 && ! jb.twin) ? 600u : 64u;
         e.keep_trace = jb.trace_all || tt.samples.size () < jb.samples;
         std::vector<op> hist;
         const unsigned n = 5 + nsel;
